@@ -13,12 +13,21 @@ RULE = ("TLC model-checks implementation-shaped PlusCal models of syncx.Limit, s
         "return or panic of the oldest/newest holder, over-return) up to a depth for capacities 1..3, each schedule is "
         "replayed through gates on every real primitive that supports its operations (Limit, TimeoutLimit, Pool with "
         "virtual-clock expiry, TaskRunner, MaxConnsHandler, mr.MapReduce/ForEach workers, fx.Parallel workers) followed by "
-        "drain and the n+1 NoLeak probe; free-running stress runs (2..64 goroutines, capacities 1..4, panics) and "
+        "drain and the n+1 NoLeak probe; TIME: TLC enumerates the schedules of a timed abstract semaphore (SemGenTimed: a "
+        "timed acquire parks with a deadline, the clock advances, a release wakes it before / exactly at / after the "
+        "deadline, with or without a third party taking the permit between wake-up and retry) and each is replayed on the "
+        "real TimeoutLimit with the clock it reads (timex hook H1) owned by the engine; POOL: TLC enumerates the schedules "
+        "of an abstract pool with an explicit clock (PoolGen: idle resources fresh / exactly maxAge old / expired, Gets "
+        "that destroy 0..n idle resources) in which a second Get arrives while the create/destroy callback of the first "
+        "one is running, replayed on the real Pool (intruder started from inside the callback); free-running stress runs (2..64 goroutines, capacities 1..4, panics) and "
         "WorkerGroup runs are added; every recorded trace is validated by TLC against Semaphore.tla. "
+        "(TimeoutLimit's clock jumps ahead at random moments there) "
         "distinct = distinct (kind, capacity, schedule) triples executed + stress runs.")
 
 FAM = "caps"
 TRACE = ("SemaphoreTrace", "SemaphoreTrace.cfg")
+TIMED_T = 2        # = constant T of the SemGenTimed*.cfg files (timeout of a parked borrow in clock units)
+POOL_MAXAGE = 1    # = constant MaxAge of the PoolGen*.cfg files (clock units; the driver's unit is one second)
 ENGINE = os.path.join(vlib.OVERLAY, "core/syncx", "zz_verif_caps_engine_test.go")
 
 # package -> (driver file, kinds)
@@ -109,6 +118,11 @@ def check(run):
         "'blocking' borrow is Borrow(250ms), finite on purpose: Cond.Signal is lossy, a waiter whose wake-up was lost "
         "stays parked although a permit is free until its timer fires (TimeoutLimitLost.cfg; seen on the real code "
         "under load with Borrow(1h))",
+        "TimeoutLimit computes the time a woken waiter has left from timex.Now/Since (Cond.WaitWithTimeout); the drivers "
+        "install the engine's clock there (hook H1, timex.VerifNow): it follows real time in the untimed schedules, jumps "
+        "ahead at random moments in the stress runs, and is frozen and moved only by `tick` steps in the SemGenTimed "
+        "schedules; the timer that ends a wait stays a real one (250 ms), so a parked borrow that nobody wakes leaves by "
+        "ErrTimeout, which the spec accepts at any time. `tick` / `wake` events carry no obligation (binding check only)",
     ]
     w = 8 if thorough else 4
 
@@ -123,10 +137,14 @@ def check(run):
     mc("TaskRunnerImpl", "TaskRunnerImplMC.cfg", "TaskRunner: 3 schedulers, n=2, Schedule/ScheduleImmediately, panics, Wait, probe")
     mc("TaskRunnerImpl", "TaskRunnerImplBugPanic.cfg", "seeded: slot not released on the panic path", "violation")
     if thorough:
+        mc("TimeoutLimitImpl", "TimeoutLimitImplBugLate.cfg",
+           "seeded: a woken waiter checks the remaining time after TryBorrow took the permit -> ErrTimeout keeps it", "violation")
         mc("LimitImpl", "LimitImplBugLeak.cfg", "seeded: Return does not give the permit back -> probe refused", "violation")
         mc("TimeoutLimitImpl", "TimeoutLimitLost.cfg",
            "observation, not a violation of C05: lost wake-up strands a waiter although a permit is free", "violation")
         mc("PoolImpl", "PoolImplBugExpire.cfg", "seeded: expiry does not decrement created -> capacity lost", "violation")
+        mc("PoolImpl", "PoolImplBugUnlocked.cfg",
+           "seeded: the destroy callback runs with the lock released, list and counter updated afterwards", "violation")
         mc("LimitImpl", "LimitImplBugOver.cfg", "seeded: over-return enlarges the capacity -> (n+1)-th admitted", "violation")
         mc("TimeoutLimitImpl", "TimeoutLimitImplBugWake.cfg", "seeded: a woken waiter is admitted without TryBorrow", "violation")
         mc("PoolImpl", "PoolImplBugShare.cfg", "seeded: Get does not unlink the idle node -> resource handed out twice", "violation")
@@ -151,6 +169,28 @@ def check(run):
             else:
                 seen[key] = (n, ops, _needs(ops), set(who))
                 scheds.append(seen[key])
+    # ---- time: schedules of the timed abstract semaphore (SemGenTimed), for the primitive whose acquire carries
+    # a deadline.  A parked borrow is woken by a release before / exactly at / after its deadline on the clock the
+    # library reads (hook H1), with or without a third party taking the permit between wake-up and retry.
+    tgens = [("SemGenTimedQ1.cfg", 1), ("SemGenTimedQ2.cfg", 2)]
+    if thorough:
+        tgens = [("SemGenTimedT1.cfg", 1), ("SemGenTimedT2.cfg", 2), ("SemGenTimedQ2.cfg", 2), ("SemGenTimedT3.cfg", 3),
+                 ("SemGenTimedW1.cfg", 1)]
+    timed = []
+    for cfg, n in tgens:
+        for ops in run.generate(FAM, "SemGenTimed", cfg):
+            key = (n, json.dumps(ops, sort_keys=True))
+            if key not in seen:
+                seen[key] = (n, ops, _needs(ops), {"tlimit"})
+                timed.append((n, ops))
+    # ---- Pool with an explicit clock and slow callbacks (PoolGen): ages of idle resources are part of the model, and a
+    # second Get arrives while the create / destroy callback of the first one is running
+    pooled = []
+    for sch in run.generate(FAM, "PoolGen", "PoolGenT.cfg" if thorough else "PoolGenQ.cfg"):
+        key = ("pool", sch["n"], json.dumps(sch["ops"], sort_keys=True))
+        if key not in seen:
+            seen[key] = True
+            pooled.append((sch["n"], sch["ops"]))
     kf_pool = any(f.get("status") == "open" and f.get("deviation") == "KF_PoolDoublePut" for f in run.findings)
     small = []
     for pkg, drv, kinds in PKGS:
@@ -162,10 +202,25 @@ def check(run):
                     i += 1
                     inp.append({"kind": kind, "n": n, "age": (i % 3) if kind == "pool" else 0, "ops": ops})
                     run.distinct.add((kind, n, json.dumps(ops, sort_keys=True)))
+        if "tlimit" in kinds:
+            for n, ops in timed:
+                inp.append({"kind": "tlimit", "n": n, "age": 0, "t": TIMED_T, "ops": ops})
+                run.distinct.add(("tlimit", n, json.dumps(ops, sort_keys=True)))
+        if "pool" in kinds:
+            for n, ops in pooled:
+                inp.append({"kind": "pool", "n": n, "age": POOL_MAXAGE, "t": 1, "ops": ops})
+                run.distinct.add(("pool-clock", n, json.dumps(ops, sort_keys=True)))
         run.evaluations += len(inp)
         tr = _drive(run, pkg, drv, "TestVerifCapsReplay$", inp=inp)
         if pkg == "core/syncx":
+            w0 = run.event_kinds.get("wake", 0)
             _validate(run, [tr], "replay-syncx")
+            wakes = run.event_kinds.get("wake", 0) - w0
+            asked = sum(1 for n, ops in timed for op in ops if "steal" in op)
+            run.extra["timed_wakeups"] = {"asked_for": asked, "observed": wakes}
+            run.notes.append("timed schedules: %d wake-ups of a parked timed borrow asked for, %d observed "
+                             "(the rest: signal lost or the real timer was first)" % (asked, wakes))
+            vlib.log("  timed schedules: %d, wake-ups asked for %d, observed %d" % (len(timed), asked, wakes))
         else:
             small.append(tr)
     if small:
